@@ -112,6 +112,30 @@ def registry_digest():
     return hash(tuple(out))
 
 
+def all_subclasses(root):
+    out, stack = [], list(root.__subclasses__())
+    while stack:
+        c = stack.pop(0)
+        if c not in out:
+            out.append(c)
+            stack.extend(c.__subclasses__())
+    return out
+
+
+def command_classes():
+    """Every public command / event class of the library (found through the class hierarchy, not through a
+    private registry): subclasses of Command defined in a dali module whose name does not start with '_'."""
+    import dali.command as C
+    return [c for c in all_subclasses(C.Command)
+            if (c.__module__ or "").startswith("dali.") and not c.__name__.startswith("_")]
+
+
+def address_classes():
+    """Every concrete address kind: subclasses of Address that define their own from_frame."""
+    import dali.address as A
+    return [c for c in all_subclasses(A.Address) if "from_frame" in vars(c) and not c.__name__.startswith("_")]
+
+
 class SpecMap:
     """Instance-type map of the harness (duck type of DeviceInstanceTypeMapper.get_type): entries are
     compared with solver-decided equalities, the last matching entry wins."""
@@ -125,6 +149,8 @@ class SpecMap:
         self.entries.append((sa, n, instance_type))
 
     def get_type(self, short_address, instance_number):
+        short_address = getattr(short_address, "address", short_address)
+        instance_number = getattr(instance_number, "value", instance_number)
         for sa, n, t in reversed(self.entries):
             if bool(E.and_(E.eq(sa, short_address), E.eq(n, instance_number))):
                 return t
